@@ -703,9 +703,55 @@ theorem sumsWithin_le (l : Nat) (cs : List Nat) (h : RpmGuard.sumsWithin l 0 cs 
   · omega
   · subst h'; simp
 
+theorem within_counts (store : Bytes) (l : Nat) : ∀ (es : List (Nat × Nat × Nat)) (items ext : Nat),
+    RpmGuard.within store l items ext es = true → items + (es.map (·.2.2)).sum ≤ l ∨ es = [] := by
+  intro es
+  induction es with
+  | nil => intro _ _ _; exact Or.inr rfl
+  | cons e es ih =>
+    intro items ext h
+    simp only [RpmGuard.within] at h
+    split at h
+    · exact absurd h (by simp)
+    · rename_i hle
+      split at h
+      · exact absurd h (by simp)
+      · left
+        rcases ih (items + e.2.2) _ h with h' | h'
+        · simp only [List.map_cons, List.sum_cons]; omega
+        · subst h'; simp only [List.map_cons, List.map_nil, List.sum_cons, List.sum_nil]; omega
+
+/-- the running extent after all entries -/
+def extentFold (store : Bytes) (l : Nat) : Nat → List (Nat × Nat × Nat) → Nat
+  | ext, [] => ext
+  | ext, e :: es => extentFold store l (RpmGuard.addExtent store l ext e) es
+
+theorem within_extent (store : Bytes) (l : Nat) : ∀ (es : List (Nat × Nat × Nat)) (items ext : Nat),
+    ext ≤ l → RpmGuard.within store l items ext es = true → extentFold store l ext es ≤ l := by
+  intro es
+  induction es with
+  | nil => intro _ ext he _; simpa [extentFold] using he
+  | cons e es ih =>
+    intro items ext _ h
+    simp only [RpmGuard.within] at h
+    split at h
+    · exact absurd h (by simp)
+    · split at h
+      · exact absurd h (by simp)
+      · rename_i hx
+        simp only [extentFold]
+        exact ih _ _ (by omega) h
+
+theorem entries_counts (data : Bytes) (base n : Nat) :
+    (RpmGuard.entries data base n).map (·.2.2) = RpmGuard.counts data base n := by
+  simp [RpmGuard.entries, RpmGuard.counts, List.map_map, Function.comp_def]
+
 theorem rpm_header_next (data : Bytes) (off off' : Nat) (h : RpmGuard.header data off = .next off') :
     off + 16 + 16 * RpmGuard.be32 data (off + 8) + RpmGuard.be32 data (off + 12) ≤ data.length ∧
-    (RpmGuard.counts data (off + 16) (RpmGuard.be32 data (off + 8))).sum ≤ RpmGuard.be32 data (off + 12) := by
+    (RpmGuard.counts data (off + 16) (RpmGuard.be32 data (off + 8))).sum ≤ RpmGuard.be32 data (off + 12) ∧
+    extentFold ((data.drop (off + 16 + 16 * RpmGuard.be32 data (off + 8))).take (RpmGuard.be32 data (off + 12)))
+      (RpmGuard.be32 data (off + 12)) 0 (RpmGuard.entries data (off + 16) (RpmGuard.be32 data (off + 8)))
+      ≤ RpmGuard.be32 data (off + 12) := by
   unfold RpmGuard.header at h
   split at h
   · exact absurd h (by simp)
@@ -717,14 +763,20 @@ theorem rpm_header_next (data : Bytes) (off off' : Nat) (h : RpmGuard.header dat
       split at h
       · exact absurd h (by simp)
       · rename_i hs
-        have hs' : RpmGuard.sumsWithin (RpmGuard.be32 data (off + 12)) 0
-            (RpmGuard.counts data (off + 16) (RpmGuard.be32 data (off + 8))) = true := by
+        have hs' : RpmGuard.within ((data.drop (off + 16 + 16 * RpmGuard.be32 data (off + 8))).take (RpmGuard.be32 data (off + 12)))
+            (RpmGuard.be32 data (off + 12)) 0 0 (RpmGuard.entries data (off + 16) (RpmGuard.be32 data (off + 8))) = true := by
           simpa using hs
-        refine ⟨?_, sumsWithin_le _ _ hs'⟩
-        have h1 : ¬ (RpmGuard.be32 data (off + 8) > (data.length - off - 16) / 16) := fun x => hnl (Or.inl x)
-        have h2 : ¬ (RpmGuard.be32 data (off + 12) > data.length - off - 16 - 16 * RpmGuard.be32 data (off + 8)) :=
-          fun x => hnl (Or.inr x)
-        omega
+        have hc := within_counts _ _ _ 0 0 hs'
+        have he := within_extent _ _ _ 0 0 (Nat.zero_le _) hs'
+        refine ⟨?_, ?_, he⟩
+        · have h1 : ¬ (RpmGuard.be32 data (off + 8) > (data.length - off - 16) / 16) := fun x => hnl (Or.inl x)
+          have h2 : ¬ (RpmGuard.be32 data (off + 12) > data.length - off - 16 - 16 * RpmGuard.be32 data (off + 8)) :=
+            fun x => hnl (Or.inr x)
+          omega
+        · rw [← entries_counts]
+          rcases hc with hc | hc
+          · omega
+          · rw [hc]; simp
 
 -- OpenSSH container ---------------------------------------------------------------------------------
 theorem kdf_no_panic (opts after : Bytes) : OpenSsh.parseKdfOptionsB true true opts after ≠ .panic := by
